@@ -237,6 +237,58 @@ func lockCycle(d []gDump, ptr string) (string, string) {
 	return "", ""
 }
 
+// stuckInEvent looks for a goroutine that is inside SendEvent of the given state machine (past its own lock,
+// i.e. inside an action or a store write) and blocked on a channel, mutex or condition in peerswap code, with no
+// harness frame (simulated service) between SendEvent and the blocking point. It returns a normalised
+// description and the stack ("" if none). One dump proves nothing; the caller compares several dumps.
+func stuckInEvent(d []gDump, ptr string) (string, string) {
+	for _, g := range d {
+		st := g.state
+		if i := strings.Index(st, ","); i >= 0 {
+			st = st[:i]
+		}
+		switch st {
+		case "chan send", "chan receive", "select", "sync.Mutex.Lock", "sync.RWMutex.Lock", "sync.RWMutex.RLock", "sync.Cond.Wait", "semacquire", "sync.WaitGroup.Wait", "chan send (nil chan)", "chan receive (nil chan)", "select (no cases)":
+		default:
+			continue
+		}
+		// frames are innermost first: everything before the SendEvent(ptr) frame is inside the event handling
+		at := -1
+		for i, f := range g.frames {
+			if strings.Contains(f, "(*SwapStateMachine).SendEvent("+ptr) {
+				at = i
+				break
+			}
+		}
+		if at <= 0 {
+			continue
+		}
+		// who performs the blocking operation: the innermost frame that is neither runtime nor sync machinery
+		var inner []string
+		harness := false
+		for _, f := range g.frames[:at] {
+			if strings.HasPrefix(f, "verifharness/") {
+				if len(inner) == 0 {
+					harness = true // blocked inside a simulated service (or parked by the harness)
+					break
+				}
+				continue // a wrapper between the action and a real component further in
+			}
+			if strings.Contains(f, "github.com/elementsproject/peerswap/") {
+				inner = append(inner, fnName(f))
+			}
+		}
+		if harness || len(inner) == 0 {
+			continue // waiting inside a simulated service, or at SendEvent's own lock
+		}
+		if len(inner) > 3 {
+			inner = inner[:3]
+		}
+		return "stuck-in-event-handling|" + st + "|" + strings.Join(inner, "<"), strings.Join(g.frames, "\n")
+	}
+	return "", ""
+}
+
 func fnName(frame string) string {
 	f := frame
 	if i := strings.LastIndex(f, "("); i > 0 {
